@@ -2177,6 +2177,9 @@ extern sslKeys_t *matrixServerGetKeysSNI(ssl_t *ssl, char *host, int32 hostLen);
 extern int32 matrixSessionTicketLen(void);
 extern int32 matrixCreateSessionTicket(ssl_t *ssl, unsigned char *out,
                                        int32 *outLen);
+extern void matrixSslSessTicketLock(void);
+extern void matrixSslSessTicketUnlock(void);
+extern int32 matrixSslHaveSessionTicketKeys(sslKeys_t *keys);
 extern int32 matrixUnlockSessionTicket(ssl_t *ssl, unsigned char *in,
                                        int32 inLen);
 extern int32 matrixSessionTicketLen(void);
